@@ -5,6 +5,7 @@ set -e
 cd "$(dirname "$0")"
 /venv/bin/python harness/build_repo.py
 /venv/bin/python harness/extract.py
+/venv/bin/python harness/extract_algebraic.py
 cd lean
 lake build driver
 lake build BezierVerif
